@@ -21,6 +21,10 @@ func init() {
 			}
 			out = append(out, mk("job", "C20/job-"+s.Name, s))
 		}
+		fl := jobBase("none-att1-fault1-lag1")
+		fl.PodActions = fullPod
+		fl.Budget = mc.Budget{Faults: 1, Lag: 1}
+		out = append(out, mk("job", "C20/job-"+fl.Name, fl))
 		s := jobBase("none-kill-delete-faults")
 		s.PodActions = fullPod
 		s.Kill, s.MaxKill, s.DeleteJob = []string{"0"}, 1, true
